@@ -395,6 +395,12 @@ class C16Check(object):
             check_colouring(loc, out, label + "/localised")
 
     # ---------------------------------------------------------------- classification / minimisation
+    def extra_evidence(self):
+        from sim import kernel_transform as kt
+
+        found = ["%s.%s" % (m, n) for m, n, _ in kt.discover_parallel_kernels()]
+        return {"parallel_kernels_discovered": found, "parallel_kernels_discovered_count": len(found)}
+
     def signature(self, case, v):
         return {"kind": v.get("kind"), "kernel": v.get("kernel"), "mode": case.get("mode"),
                 "family": case.get("op", {}).get("family"), "space": v.get("space")}
